@@ -15,6 +15,8 @@ import (
 	"encoding/json"
 	"fmt"
 	"math/rand"
+	"runtime"
+	"strconv"
 	"strings"
 	"time"
 
@@ -35,11 +37,25 @@ type concSpec struct {
 }
 
 type sig struct {
-	kind  string // accepted returned arrive
-	job   int
-	w     int
-	res   result
-	grant chan struct{}
+	kind   string // accepted returned arrive
+	job    int
+	w      int
+	res    result
+	grant  chan struct{}
+	caller bool // arrive: the instrumented call is being made by the goroutine of the job's own caller
+}
+
+// id of the calling goroutine ("goroutine 123 [running]:")
+func gid() int64 {
+	var buf [64]byte
+	n := runtime.Stack(buf[:], false)
+	f := strings.Fields(string(buf[:n]))
+	if len(f) >= 2 {
+		if v, err := strconv.ParseInt(f[1], 10, 64); err == nil {
+			return v
+		}
+	}
+	return -1
 }
 
 type labelObs struct {
@@ -63,6 +79,7 @@ type ctl struct {
 	grp     *mux.WorkerGrp
 	sigs    chan sig
 	parked  map[int]*sig // worker -> the call it is parked in front of (with the job the call belongs to)
+	cparked map[int]*sig // job -> a call its caller's own goroutine is parked in front of (no model run has this)
 	pending map[int]int  // worker -> queued or running jobs whose callers have not returned
 	out     []labelObs
 	broken  string
@@ -137,10 +154,11 @@ func (c *ctl) doCall(l label) {
 	g := &c.s.G
 	i := l.Job
 	o := c.s.Jobs[i]
-	w := route(g, o.K)
 	oc := &opCtx{id: i, spec: o, tagged: true}
 	oc.onDone = func() { c.sigs <- sig{kind: "accepted", job: i} }
+	m := c.h.mark()
 	go func() {
+		oc.gid = gid()
 		r := callOp(c.grp, c.h, g.Kind, oc)
 		c.sigs <- sig{kind: "returned", job: i, res: r}
 	}()
@@ -149,17 +167,55 @@ func (c *ctl) doCall(l label) {
 		c.anomaly(l, "the call neither returned nor queued its request within 10 s")
 		return
 	}
-	lo := labelObs{L: l}
+	c.settleCall(l, i, s, m)
+}
+
+// a caller-side step: what it executed (or, when it parked before doing anything, a placeholder read)
+func (c *ctl) callerItem(l label, i int, m int, fin *result) {
+	lo := labelObs{L: l, Ans: "cstep", ID: i, Fin: fin}
+	evs := c.h.since(m)
+	if len(evs) > 0 {
+		lo.Ev = evs[len(evs)-1]
+	} else {
+		lo.Ev = event{Kind: "peek", K: c.s.Jobs[i].K}
+	}
+	c.snapshot(&lo)
+	c.out = append(c.out, lo)
+}
+
+// the first signal after a call was started (or after its caller was released from a caller-side gate)
+func (c *ctl) settleCall(l label, i int, s sig, m int) {
+	g := &c.s.G
+	w := route(g, c.s.Jobs[i].K)
+	if s.kind == "arrive" && s.caller && s.job == i {
+		// the caller's own goroutine is about to make an instrumented call: it stays parked until a cstep label
+		arr := s
+		c.cparked[i] = &arr
+		c.callerItem(l, i, m, nil)
+		return
+	}
+	call := label{Kind: "call", Job: i}
+	if l.Kind == "cstep" {
+		// the released caller-side call has been executed; what follows is the ordinary end of the call
+		if s.kind == "returned" && s.job == i {
+			r := s.res
+			c.callerItem(l, i, m, &r)
+			return
+		}
+		c.callerItem(l, i, m, nil)
+	}
+	lo := labelObs{L: call}
 	// an idle worker may reach the handler's first call before the caller has entered its select: the two signals
 	// "request queued" and "worker parked" come in either order
 	early := false
-	if s.kind == "arrive" && w >= 0 && c.parked[w] == nil && c.arrivalOf(s, w) && s.job == i {
+	if s.kind == "arrive" && !s.caller && w >= 0 && c.parked[w] == nil && c.arrivalOf(s, w) && s.job == i {
 		arr := s
 		c.parked[w] = &arr
 		early = true
+		var ok bool
 		s, ok = c.wait()
 		if !ok {
-			c.anomaly(l, "the worker started the job but the caller never entered its wait")
+			c.anomaly(call, "the worker started the job but the caller never entered its wait")
 			return
 		}
 	}
@@ -186,16 +242,45 @@ func (c *ctl) doCall(l label) {
 		c.pending[w]++
 		if c.parked[w] == nil {
 			// the worker was idle: it takes the request and reaches the handler's first call
-			if !c.awaitArrival(l, w) {
+			if !c.awaitArrival(call, w) {
 				return
 			}
 		}
 	default:
-		c.anomaly(l, fmt.Sprintf("unexpected signal %s(job %d, cache %d) during the call of job %d", s.kind, s.job, s.w, i))
+		c.anomaly(call, fmt.Sprintf("unexpected signal %s(job %d, cache %d) during the call of job %d", s.kind, s.job, s.w, i))
 		return
 	}
 	c.snapshot(&lo)
 	c.out = append(c.out, lo)
+}
+
+// release a caller that is parked in front of a caller-side instrumented call
+func (c *ctl) doCStep(l label) {
+	i := l.Job
+	p := c.cparked[i]
+	if p == nil {
+		c.anomaly(l, "cstep of a caller that is not parked")
+		return
+	}
+	m := c.h.mark()
+	delete(c.cparked, i)
+	close(p.grant)
+	s, ok := c.wait()
+	if !ok {
+		c.anomaly(l, fmt.Sprintf("the caller of job %d made no observable progress within 10 s", i))
+		return
+	}
+	c.settleCall(l, i, s, m)
+}
+
+func (c *ctl) parkedCallers() []int {
+	js := []int{}
+	for i := range c.s.Jobs {
+		if c.cparked[i] != nil {
+			js = append(js, i)
+		}
+	}
+	return js
 }
 
 func (c *ctl) doStep(l label) {
@@ -287,14 +372,14 @@ func runConcMode(s *concSpec, r *rand.Rand, prefixOnly bool) (out []labelObs, en
 		g.Init[kv[0]] = kv[1]
 	}
 	h := newHist(g.Init)
-	c := &ctl{s: s, h: h, sigs: make(chan sig, 4096), parked: map[int]*sig{}, pending: map[int]int{}}
+	c := &ctl{s: s, h: h, sigs: make(chan sig, 4096), parked: map[int]*sig{}, cparked: map[int]*sig{}, pending: map[int]int{}}
 	h.gate = func(oc *opCtx, cacheIdx int) {
 		gr := make(chan struct{})
 		id := -1
 		if oc != nil {
 			id = oc.id
 		}
-		c.sigs <- sig{kind: "arrive", job: id, w: cacheIdx, grant: gr}
+		c.sigs <- sig{kind: "arrive", job: id, w: cacheIdx, grant: gr, caller: oc != nil && oc.gid != 0 && oc.gid == gid()}
 		<-gr
 	}
 	c.grp = buildGroup(g, h)
@@ -306,7 +391,19 @@ func runConcMode(s *concSpec, r *rand.Rand, prefixOnly bool) (out []labelObs, en
 			c.doStep(l)
 		case "stop":
 			c.doStop(l)
+		case "cstep":
+			c.doCStep(l)
 		}
+	}
+	// whatever is still parked is let go, worker calls first
+	drainOne := func() (label, bool) {
+		if ws := c.parkedWorkers(); len(ws) > 0 {
+			return label{Kind: "step", W: ws[0]}, true
+		}
+		if js := c.parkedCallers(); len(js) > 0 {
+			return label{Kind: "cstep", Job: js[0]}, true
+		}
+		return label{}, false
 	}
 	stopped := false
 	if s.Labels != nil || prefixOnly {
@@ -330,11 +427,18 @@ func runConcMode(s *concSpec, r *rand.Rand, prefixOnly bool) (out []labelObs, en
 			for _, w := range c.parkedWorkers() {
 				enabled = append(enabled, label{Kind: "step", W: w})
 			}
+			for _, j := range c.parkedCallers() {
+				enabled = append(enabled, label{Kind: "cstep", Job: j})
+			}
 			if len(enabled) > 0 {
 				// not a complete schedule: let the workers finish, unobserved
 				n := len(c.out)
-				for len(c.parkedWorkers()) > 0 && c.broken == "" {
-					c.doStep(label{Kind: "step", W: c.parkedWorkers()[0]})
+				for c.broken == "" {
+					l, more := drainOne()
+					if !more {
+						break
+					}
+					do(l)
 				}
 				if c.broken == "" {
 					stopGroup(c.grp)
@@ -358,6 +462,9 @@ func runConcMode(s *concSpec, r *rand.Rand, prefixOnly bool) (out []labelObs, en
 			}
 			for _, w := range ws {
 				opts = append(opts, opt{label{Kind: "step", W: w}, 2})
+			}
+			for _, j := range c.parkedCallers() {
+				opts = append(opts, opt{label{Kind: "cstep", Job: j}, 1})
 			}
 			if wantStop && !stopped && next > len(s.Jobs)/2 {
 				opts = append(opts, opt{label{Kind: "stop"}, 1})
@@ -395,6 +502,11 @@ func runConcMode(s *concSpec, r *rand.Rand, prefixOnly bool) (out []labelObs, en
 				close(p.grant)
 			}
 		}
+		for _, p := range c.cparked {
+			if p != nil {
+				close(p.grant)
+			}
+		}
 		h.gate = func(*opCtx, int) {}
 		go func() {
 			for range c.sigs {
@@ -404,10 +516,13 @@ func runConcMode(s *concSpec, r *rand.Rand, prefixOnly bool) (out []labelObs, en
 		return c.out, nil, false
 	}
 	// a replayed label list may leave work behind: finish it (these steps are observed and become part of the case)
-	for len(c.parkedWorkers()) > 0 && c.broken == "" {
-		l := label{Kind: "step", W: c.parkedWorkers()[0]}
+	for c.broken == "" {
+		l, more := drainOne()
+		if !more {
+			break
+		}
 		s.Labels = append(s.Labels, l)
-		c.doStep(l)
+		do(l)
 	}
 	if c.broken != "" {
 		return c.out, nil, false
@@ -487,7 +602,7 @@ func (lo labelObs) coqAnswer() string {
 		return "AQueued"
 	case "stopped":
 		return "AStopped"
-	case "step":
+	case "step", "cstep":
 		fin := "None"
 		if lo.Fin != nil {
 			fin = "(Some " + lo.Fin.coq() + ")"
@@ -509,7 +624,12 @@ func concCase(s *concSpec, out []labelObs, clean bool) vh.Case {
 		if lo.Ans == "anomaly" {
 			kind = "stop"
 		}
+		if lo.Ans == "cstep" {
+			kind = "cstep"
+		}
 		switch kind {
+		case "cstep":
+			lab = "(GCaller " + vh.CoqZ(int64(lo.ID)) + ")"
 		case "call":
 			lab = "(GCall " + coqJob(lo.L.Job, s.Jobs[lo.L.Job]) + ")"
 		case "step":
@@ -520,6 +640,8 @@ func concCase(s *concSpec, out []labelObs, clean bool) vh.Case {
 		items = append(items, fmt.Sprintf("(%s, %s, %s, %s)", lab, lo.coqAnswer(), coqSnap(lo.CacheV, lo.CacheH), coqSnap(lo.StoreV, lo.StoreH)))
 		d := map[string]interface{}{}
 		switch lo.L.Kind {
+		case "cstep":
+			d["label"] = fmt.Sprintf("release the caller of job %d", lo.L.Job)
 		case "call":
 			d["label"] = fmt.Sprintf("call job %d: %s", lo.L.Job, s.Jobs[lo.L.Job])
 		case "step":
@@ -536,6 +658,12 @@ func concCase(s *concSpec, out []labelObs, clean bool) vh.Case {
 			}
 		case "refused":
 			d["answer"] = "refused " + lo.E
+		case "cstep":
+			a := fmt.Sprintf("THE CALLER'S OWN GOROUTINE of job %d is at / has made an instrumented call; last: %s", lo.ID, lo.Ev)
+			if lo.Fin != nil {
+				a += " ; the call returns " + lo.Fin.String()
+			}
+			d["answer"] = a
 		case "step":
 			a := fmt.Sprintf("job %d: %s", lo.ID, lo.Ev)
 			if lo.Fin != nil {
